@@ -569,6 +569,38 @@ class Engine:
             out.add(f)
         return out
 
+    def _search_refusal_events(self, cf, ldefs):
+        """`it = find_if(R.begin(), R.end(), pred); if (it != R.end()) throw` (or `if (any_of(...)) throw`), on the branch
+        that goes on: every element failed the predicate - the same per-element refusal a loop `for (x : R) if (pred(x)) throw`
+        yields at its exit."""
+        out = set()
+        for f in cf:
+            cands = []
+            if f[0] == "==":
+                for (x, y) in ((f[1], f[2]), (f[2], f[1])):
+                    x2 = substitute(x, ldefs) if ldefs else x
+                    if x2[0] == "call" and x2[1] in ("std::find_if",) and len(x2[3]) == 3 and y == x2[3][1]:
+                        cands.append((x2, False))
+            elif f[0] == "false" and f[1][0] == "call" and f[1][1] == "std::any_of" and len(f[1][3]) == 3:
+                cands.append((f[1], False))
+            elif f[0] == "true" and f[1][0] == "call" and f[1][1] == "std::none_of" and len(f[1][3]) == 3:
+                cands.append((f[1], False))
+            for (c, _neg) in cands:
+                lam = c[3][2]
+                if lam[0] != "lambda":
+                    continue
+                lf = self.F.functions.get(lam[1])
+                if lf is None:
+                    continue
+                rets = [x for x in lf.nodes if x["k"] == "ReturnStmt" and "value" in x]
+                if len(rets) != 1:
+                    continue
+                pt = lf.term(rets[0]["value"])
+                if pt[0] == "op" and pt[1] in ("<", "<=", ">", ">=", "==", "!="):
+                    g = negate(norm_cmp(pt[1], pt[2], pt[3]))
+                    out.add(("ev", "each", ("ev", "passed", norm_cmp(g[0], g[1], g[2]))))
+        return out
+
     def _rewrite_through_definition(self, facts, v):
         """Before local `v` is overwritten: what was known about v is restated about the expression that defined it
         (v == d, d not mentioning v), so `n = 4096 - r; if (n > size) n = size;` keeps `size < 4096 - r` on the taken arm."""
@@ -943,6 +975,13 @@ class Engine:
                                     for (x, y) in ((df[1], df[2]), (df[2], df[1])):
                                         if x[0] == "var" and not mentions(y, x) and y[0] in ("op", "mem", "const", "size"):
                                             ldefs.setdefault(x, y)
+                            cdefs = dict(ldefs)
+                            for df in cur:
+                                if df[0] == "==":
+                                    for (x, y) in ((df[1], df[2]), (df[2], df[1])):
+                                        if x[0] == "var" and y[0] == "call" and y[1].startswith("std::") and not mentions(y, x):
+                                            cdefs.setdefault(x, y)
+                            s |= self._search_refusal_events(cf, cdefs)
                             for f in cf:
                                 s.add(("ev", "passed", f))
                                 if ldefs and f[0] in ("<", "<=", "==", "!="):
